@@ -48,7 +48,9 @@ def judge(mode: str, cfg: dict, oracle: Oracle, rec: dict) -> dict[str, bool]:
     """Truth value of each invariant on this record (names as in Search.tla)."""
     out, log = rec["out"], rec["log"]
     sel = out["k"] == "sel"
-    esc = rec["escape"]
+    # the continue escape exempts a design from C01 / C05 only when the user enabled it; a "largest / smallest available configuration"
+    # returned although continue_if_design_unmet is false is judged like any other design
+    esc = rec["escape"] and bool(cfg.get("cont"))
     v = {}
     asked = {k: x for k, x in oracle.memo.items() if k[1] in ("min", "max")}
     nozero = all(x != 0 for x in asked.values())
